@@ -5,8 +5,11 @@ import struct
 ASCII_STRS = [b"A", b"AB", b"", b"a b", b"~", b"\\", b"Count", b"Info", b"MID_H", b"x" * 9]
 KANA_STRS = [bytes.fromhex("82a0"), bytes.fromhex("835c"), bytes.fromhex("b1"), bytes.fromhex("82a082a2")]
 KANJI_STRS = [bytes.fromhex("8abf8e9a"), bytes.fromhex("8140")]
-# names whose code-point order equals their Shift-JIS byte order (ASCII, kana): safe as big-endian label names
-ORDER_SAFE = ASCII_STRS + KANA_STRS
+# names whose Shift-JIS byte order differs from their String (code point) order - the order BinArchive::serialize uses for
+# big-endian label tables: Greek alpha 83 BF (U+03B1) vs hiragana 82 A0 (U+3042), prolonged sound mark 81 5B (U+30FC),
+# kanji 88 9F (U+4E9C) vs 88 EA (U+4E00), full-width A 82 60 (U+FF21), half-width katakana B1 (U+FF71) vs everything
+ORDER_STRS = [bytes.fromhex("83bf"), bytes.fromhex("815b"), bytes.fromhex("889f"), bytes.fromhex("88ea"), bytes.fromhex("8260"),
+              bytes.fromhex("83bf82a0"), bytes.fromhex("82a083bf"), bytes.fromhex("41889f"), bytes.fromhex("88ea41")]
 
 
 def hexb(b):
@@ -16,7 +19,7 @@ def hexb(b):
 def long_str(rng):
     """a string of several hundred encoded bytes whose double-byte characters straddle the 256-byte (and 512-byte)
     offsets - an odd number of single-byte characters followed by a long kana run (seeded change binshared-3 decoded in
-    fixed 256-byte blocks); ASCII + kana only, so it is also order-safe as a big-endian label"""
+    fixed 256-byte blocks)"""
     head = rng.choice([b"x", b"abc", b"k" * 255, b"", b"MID_"])
     kana = [bytes.fromhex("82a0"), bytes.fromhex("82a2"), bytes.fromhex("835c"), bytes.fromhex("8341")]
     n = rng.choice([128, 129, 130, 200, 256, 300])
@@ -45,8 +48,8 @@ def random_content(rng, endian, max_size=64, cstrings=True, aligned_len=None):
         k = rng.randrange(len(cells))
         cells = cells[:k] + [c + sh for c in cells[k:]]
     text, ptr, cs = {}, {}, []
-    pool = ASCII_STRS + KANA_STRS + KANJI_STRS
-    label_pool = ORDER_SAFE if endian == "B" else pool
+    pool = ASCII_STRS + KANA_STRS + KANJI_STRS + ORDER_STRS
+    label_pool = pool          # any lossless name in either endianness (sort keys: gen/namekeys.py)
     dense = rng.random()
     longs = rng.random() < 0.15          # some archives carry strings of several hundred bytes
     if longs:
